@@ -1017,7 +1017,12 @@ fn encode_semantic_tokens(doc: &AnalysisResult) -> Vec<SemanticToken> {
         let col = doc.utf16_col(line, byte_col);
         let delta_line = line - prev_line;
         let delta_start = if delta_line == 0 { col - prev_col } else { col };
-        let end_col = doc.utf16_col(line, byte_col + tok.fragment.len() as u32);
+        // A token is reported on one line. One that goes on, such as a string
+        // with a newline in it, is cut at the end of its first line.
+        let end_col = doc
+            .utf16_col(line, byte_col + tok.fragment.len() as u32)
+            .min(doc.line_end_col(line))
+            .max(col);
 
         data.push(SemanticToken {
             delta_line,
